@@ -62,10 +62,15 @@ func (c *timestampCache) Timestamp(ctx context.Context, req *pkcs9.Request) (*pk
 	if err == nil {
 		token, err := pkcs7.Unmarshal(item.Value)
 		if err == nil {
+			// the cache is shared and unauthenticated: only use a token that
+			// covers this very signature value
+			err = checkToken(token, req)
+		}
+		if err == nil {
 			metricHits.WithLabelValues("hit").Inc()
 			return token, nil
 		}
-		log.Warn().Err(err).Str("key", key).Msg("failed to parse cached value for timestamp")
+		log.Warn().Err(err).Str("key", key).Msg("unusable cached value for timestamp")
 		// bad cached value, fall through
 	}
 	token, err := c.Timestamper.Timestamp(ctx, req)
@@ -84,6 +89,16 @@ func (c *timestampCache) Timestamp(ctx context.Context, req *pkcs9.Request) (*pk
 		metricHits.WithLabelValues("miss").Inc()
 	}
 	return token, err
+}
+
+func checkToken(token *pkcs7.ContentInfoSignedData, req *pkcs9.Request) error {
+	var err error
+	if req.Legacy {
+		_, err = pkcs9.VerifyMicrosoftToken(token, req.EncryptedDigest)
+	} else {
+		_, err = pkcs9.Verify(token, req.EncryptedDigest, nil)
+	}
+	return err
 }
 
 func cacheKey(req *pkcs9.Request) string {
